@@ -107,24 +107,41 @@ def exp_view(exp):
     return tuple(p for p in exp if p.kind != KWO), frozenset(p for p in exp if p.kind == KWO)
 
 
+def twin(f):
+    import types
+    g = types.FunctionType(f.__code__, f.__globals__, f.__name__, f.__defaults__, f.__closure__)
+    g.__kwdefaults__ = f.__kwdefaults__
+    return g
+
+
 def decorate(f, form, sel):
+    """Every decorator object is first used on a twin of the function: decorator objects are reusable, what one
+    decoration did must not leak into the next."""
     from sigtools import modifiers
+
+    def reuse(deco, g):
+        try:
+            deco(twin(f) if g is f else g)
+        except ValueError:
+            pass
+        return deco(g)
     if form == 'names':
         kwo, poso, order = sel
         g = f
         steps = [('k', kwo), ('p', poso)] if order == 0 else [('p', poso), ('k', kwo)]
         for which, names in steps:
             if names:
-                g = (modifiers.kwoargs if which == 'k' else modifiers.posoargs)(*names)(g)
+                deco = (modifiers.kwoargs if which == 'k' else modifiers.posoargs)(*names)
+                g = reuse(deco, g) if g is f else deco(g)
         return g
     if form == 'start':
-        return modifiers.kwoargs(start=sel[0], *sel[1])(f) if False else modifiers.kwoargs(*sel[1], start=sel[0])(f)
+        return reuse(modifiers.kwoargs(*sel[1], start=sel[0]), f)
     if form == 'end':
-        return modifiers.posoargs(*sel[1], end=sel[0])(f)
+        return reuse(modifiers.posoargs(*sel[1], end=sel[0]), f)
     if form == 'auto':
         if sel is None:
             return modifiers.autokwoargs(f)
-        return modifiers.autokwoargs(exceptions=sel)(f)
+        return reuse(modifiers.autokwoargs(exceptions=sel), f)
     raise AssertionError(form)
 
 
